@@ -85,19 +85,38 @@ def pred_zh_unit_nested(case, v):
     if d.get('culture') != 'zh-cn' or d.get('model') not in ('currency', 'dimension', 'temperature', 'age'):
         return False
     a, b = d['first'], d['second']
-    return a[0] <= b[0] and b[1] <= a[1]
+    return (a[0] <= b[0] and b[1] <= a[1]) or (b[0] <= a[0] and a[1] <= b[1])
 
 
 def pred_it_meno_fragment(case, v):
     """it-it number model: the negative word 'meno' found INSIDE another word ('armeno', 'rumeno') yields number entities made of
     'meno' and the following punctuation, reported twice or nested"""
     d = _detail(v)
-    if d.get('culture') != 'it-it' or d.get('model') != 'number':
+    if d.get('culture') not in ('it-it', 'nl-nl') or d.get('model') != 'number':
         return False
-    return all(str(x[2]).startswith('meno') for x in (d['first'], d['second']))
+    word = 'meno' if d['culture'] == 'it-it' else 'min'
+    return all(str(x[2]).startswith(word) and not any(ch.isdigit() for ch in str(x[2])) for x in (d['first'], d['second']))
 
 
-PREDICATES = {'c12_zh_unit_nested': pred_zh_unit_nested, 'c12_it_meno_fragment': pred_it_meno_fragment,
+def pred_phone_bracketed_group(case, v):
+    import re
+    d = _detail(v)
+    if d.get('model') != 'phone_number':
+        return False
+    return bool(re.match(r'^\(\d{5}\)\s?\d{5,6}$', str(d['first'][2])))
+
+
+def pred_zh_season_inside_holiday(case, v):
+    d = _detail(v)
+    if d.get('culture') != 'zh-cn' or d.get('model') != 'datetime':
+        return False
+    a, b = d['first'], d['second']
+    inner = b if (a[0] <= b[0] and b[1] <= a[1]) else a if (b[0] <= a[0] and a[1] <= b[1]) else None
+    return inner is not None and str(inner[2]) in ('春', '夏', '秋', '冬')
+
+
+PREDICATES = {'c12_zh_unit_nested': pred_zh_unit_nested, 'c12_negative_word_fragment': pred_it_meno_fragment,
+              'c12_phone_bracketed_group': pred_phone_bracketed_group, 'c12_zh_season_inside_holiday': pred_zh_season_inside_holiday,
               'c12_currency_shared_symbol': pred_currency_shared_symbol,
               'c12_pt_numeric_date_inside_datetimerange': pred_pt_numeric_date_inside_datetimerange,
               'c12_en_range_fragment_shares_number': pred_en_range_fragment_shares_number}
